@@ -558,6 +558,7 @@ func (i *Iterator[T]) ProcessParallel(
 			opts.ErrorHandler = i.ErrorHandler().Lock()
 			opts.ErrorResolver = i.Close
 		}
+		opts.abort = cancel
 
 		wg := &WaitGroup{}
 
@@ -570,9 +571,7 @@ func (i *Iterator[T]) ProcessParallel(
 
 		splits := i.Split(opts.NumWorkers)
 		for idx := range splits {
-			operation.ReadAll(splits[idx].Producer()).
-				Operation(func(err error) { ft.WhenCall(ers.Is(err, io.EOF, ers.ErrCurrentOpAbort), cancel) }).
-				Add(ctx, wg)
+			operation.ReadAll(splits[idx].Producer()).Ignore().Add(ctx, wg)
 		}
 
 		wg.Operation().Block()
